@@ -106,6 +106,7 @@ async fn request(world: &mut World, msg: FromClientMessage) -> Option<ToClientMe
             kind: "rq".into(),
             sent_step: 0,
             stream: false,
+            sel: None,
         });
     }
     None
